@@ -89,6 +89,17 @@ func (l *Lexer) atEOF() bool {
 	return l.pos >= len(l.input)
 }
 
+// atKeyword returns whether or not the lexer is sat at the start of the given keyword,
+// the keyword must be the whole word: "tasks" is an identifier that happens to start with "task".
+func (l *Lexer) atKeyword(keyword token.Type) bool {
+	after, found := strings.CutPrefix(l.rest(), keyword.String())
+	if !found {
+		return false
+	}
+	r, _ := utf8.DecodeRuneInString(after)
+	return !isValidIdent(r)
+}
+
 // skipWhitespace consumes any utf-8 whitespace until something meaningful is hit.
 func (l *Lexer) skipWhitespace() {
 	for {
@@ -223,7 +234,7 @@ func lexStart(l *Lexer) lexFn {
 	switch {
 	case strings.HasPrefix(l.rest(), token.HASH.String()):
 		return lexHash
-	case strings.HasPrefix(l.rest(), token.TASK.String()):
+	case l.atKeyword(token.TASK):
 		return lexTaskKeyword
 	case isValidIdent(l.peek()):
 		return lexIdent
